@@ -166,7 +166,9 @@ def dump_tasker(t):
         d["main"] = conv(main) if main is not None else None
         d["auxes"] = {k: _name(v) for k, v in t.auxes.items()}
         d["auxorder"] = list(t.auxes.keys())
-        d["moots"] = conv(dict(t.moots)) if t.moots else {}
+        # moot data carries the command text / line number of the aux command: not structure
+        d["moots"] = {tag: conv({k: v for k, v in data.items() if k not in ("human", "count")})
+                      for tag, data in t.moots.items()}
         d["frames"] = [dump_frame(f) for f in t.frameNames.values()]
     elif isinstance(t, logging.Logger):
         d["prefix"] = t.prefix
